@@ -1,9 +1,9 @@
 #!/bin/sh
 # seedall.sh : regression over every stored seeded change: each must still be caught by (at least) the check of
-# its own property. Prints one line per seed; exit 1 if any seed is not caught.
+# its own property (optional argument: a glob over seed ids, e.g. "C0*"). Prints one line per seed; exit 1 if any seed is not caught.
 cd /verif
 fail=0
-for d in seeded/*/; do
+for d in seeded/${1:-*}/; do
   id=$(basename $d)
   prop=$(python3 -c "import json;print(json.load(open('$d/meta.json'))['property'])")
   out=$(bin/seedrun.sh /verif/$d/patch.diff $prop 2>&1 | grep "^== ")
